@@ -117,7 +117,7 @@ func main() {
 		MinEvals:    1_000_000,
 		MinDistinct: 1000,
 		Require: []string{
-			"steps_pre_oak_adjust", "steps_pre_oak_noadjust", "steps_oak", "asic_reset_seen", "asic_reset_outside_clamp", "steps_v2", "steps_finalcut",
+			"oak_time_steps_bounded", "oak_time_steps_bounded_with_more_than_107_days_accumulated", "steps_pre_oak_adjust", "steps_pre_oak_noadjust", "steps_oak", "asic_reset_seen", "asic_reset_outside_clamp", "steps_v2", "steps_finalcut",
 			"clamp_upper_hit", "clamp_lower_hit", "clamp_inside", "header_vs_block_compared",
 			"validate_header_accept", "validate_header_accept_timestamp_equals_median", "validate_header_reject",
 			"validate_header_reject/wrong-parent", "validate_header_reject/timestamp-before-median", "validate_header_reject/nonce-not-multiple-of-factor", "validate_header_reject/hash-above-target",
